@@ -396,7 +396,13 @@ Definition st_enabled : N := 1.
 Definition st_disabled : N := 2.
 Definition st_destroyed : N := 3.
 Definition known_status (s : N) : bool := (s =? 1) || (s =? 2) || (s =? 3).
-Definition known_prefix (p : N) : bool := (p =? 1) || (p =? 2) || (p =? 3) || (p =? 4).
+(* TINK, LEGACY, RAW, CRUNCHY: the prefix types every key type may use; the only
+   ones internal/protoserialization calculateOutputPrefix (fallback key) knows *)
+Definition legacy_prefix (p : N) : bool := (p =? 1) || (p =? 2) || (p =? 3) || (p =? 4).
+(* validateKey also accepts WITH_ID_REQUIREMENT (5) since /repo 4b80d2c (before,
+   a keyset holding an ML-DSA key of variant NoPrefixWithPrehashID could be
+   written but not read) *)
+Definition known_prefix (p : N) : bool := legacy_prefix p || (p =? 5).
 
 Definition validate_key (k : pkey) : bool :=
   match pk_data k with None => false | Some _ => known_prefix (pk_prefix k) && known_status (pk_status k) end.
@@ -549,7 +555,9 @@ Definition dser (k : dkey) : option kser :=
 Definition dpar (reg : bytes -> option ktype) (s : kser) : option dkey :=
   match reg (ks_url s) with
   | Some T => match parse_key T s with Some g => Some (DK T g) | None => None end
-  | None => Some (DFallback s)
+  | None =>
+      (* NewFallbackProtoKey -> calculateOutputPrefix: error outside TINK/LEGACY/RAW/CRUNCHY *)
+      if legacy_prefix (ks_prefix s) then Some (DFallback s) else None
   end.
 Definition dpub (reg : bytes -> option ktype) (pub_url : bytes -> option (bytes * N)) (k : dkey) : option dkey :=
   match k with
